@@ -615,7 +615,7 @@ func (mklines *MkLines) CheckUsedBy(relativeName PkgsrcPath) {
 		prevLine = usedParas[0].LastLine()
 	} else {
 		prevLine = paras[0].LastLine()
-		if paras[0].to > 1 {
+		if !found && paras[0].to > 1 {
 			fix := prevLine.Autofix()
 			fix.Notef(SilentAutofixFormat)
 			fix.InsertBelow("")
